@@ -1,6 +1,11 @@
 // C14 — galois::InsertBag used from one thread: push / pop / iterate / clear /
 // move, against an unordered-bag model (contents as a multiset; the documented
 // pop() removes the element pushed last by this thread).
+//
+// Element sizes 8, 12, 20 and 24 bytes (sizes that do and do not divide the block header) with small explicit
+// BlockSizes, optionally two bags of the same type filled alternately (their blocks come from the same heap and
+// lie next to each other, so a bag that writes outside its block damages the other one). Besides the model
+// comparison: no block may hold more elements than BlockSize / sizeof(T) (read off the addresses push returns).
 #include "c14_common.h"
 
 #include "galois/Bag.h"
@@ -12,48 +17,69 @@ namespace c14 {
 namespace {
 
 template <typename B>
-void checkBagAll(Case& c, B& b, const std::vector<int>& m, unsigned cap, bool tracked) {
-  if (!c.regOk())
-    return;
+void checkOne(Case& c, B& b, const std::vector<int>& m, const char* which) {
   const B& cb = b;
-  c.eq("empty", cb.empty(), m.empty());
+  c.eq(which[0] == 'o' ? "empty-other-bag" : "empty", cb.empty(), m.empty());
   if (c.bad)
     return;
-  std::vector<int> a, k, l;
-  checkBag(c, "forward-traversal", b.begin(), b.end(), m, &a);
-  // No const traversal: InsertBag::begin() const / end() const do not compile (Bag.h:240-241, a const_iterator
-  // cannot be built from a const PerThreadStorage*), nor does the iterator -> const_iterator conversion
-  // (Bag.h:114, private members of another specialisation). Reported, cannot be monitored at run time.
-  k = a;
-  checkBag(c, "local-traversal", b.local_begin(), b.local_end(), m, &l);
-  if (!c.bad && (a != k || a != l))
-    c.fail("traversals-differ",
-           J().raw("forward", jarr(a, 48)).raw("const_forward", jarr(k, 48)).raw("local", jarr(l, 48)));
+  std::vector<int> a, l;
+  bool other = which[0] == 'o';
+  checkBag(c, other ? "forward-traversal-other-bag" : "forward-traversal", b.begin(), b.end(), m, &a);
+  // No const traversal: InsertBag::begin() const / end() const do not compile (Bag.h, a const_iterator cannot be
+  // built from a const PerThreadStorage*), nor does the iterator -> const_iterator conversion. Reported, cannot be
+  // monitored at run time.
+  checkBag(c, other ? "local-traversal-other-bag" : "local-traversal", b.local_begin(), b.local_end(), m, &l);
+  if (!c.bad && a != l)
+    c.fail("traversals-differ", J().raw("forward", jarr(a, 48)).raw("local", jarr(l, 48)));
   if (!c.bad && a == m)
     c.count("traversals_in_insertion_order");
-  c.lifetimesOk(tracked ? (long)m.size() : -1);
-  c.sawSize(m.size(), cap);
 }
 
 template <typename T, unsigned BS>
-void bagT(Case& c, bool pops, unsigned cap, unsigned nops) {
+void bagT(Case& c, bool pops, bool pair, unsigned nops) {
   typedef galois::InsertBag<T, BS> B;
   constexpr bool tracked = ElemName<T>::tracked;
-  Rng& rng               = c.rng;
-  std::vector<int> m; // insertion order
+  // a block of BS bytes cannot hold more elements than this, whatever its header needs
+  constexpr size_t blockBound = BS ? BS / sizeof(T) : (size_t)-1;
+  constexpr unsigned cap      = BS ? (unsigned)(BS / sizeof(T)) : 0;
+  Rng& rng                    = c.rng;
+  struct Side {
+    std::unique_ptr<B> bp;
+    std::vector<int> m; // insertion order
+    bool canPop = false, lastWasPush = false;
+    const T* lastAddr = nullptr;
+    size_t run        = 0; // elements pushed to consecutive addresses (= into one block)
+  } side[2];
+  unsigned nb = pair ? 2 : 1;
+  auto checkAll = [&](unsigned w) {
+    if (!c.regOk())
+      return;
+    checkOne(c, *side[w].bp, side[w].m, "this");
+    if (nb == 2)
+      checkOne(c, *side[1 - w].bp, side[1 - w].m, "other");
+    c.lifetimesOk(tracked ? (long)(side[0].m.size() + (nb == 2 ? side[1].m.size() : 0)) : -1);
+    c.sawSize(side[w].m.size(), cap);
+  };
   {
-    std::unique_ptr<B> bp(new B());
-    checkBagAll(c, *bp, m, cap, tracked);
-    unsigned grow   = 70;
-    bool canPop     = false; // a push happened and no clear/move since
-    bool lastWasPush = false;
+    for (unsigned i = 0; i < nb; ++i)
+      side[i].bp.reset(new B());
+    checkAll(0);
+    unsigned grow = 70, w = 0;
     for (unsigned step = 0; step < nops && !c.bad; ++step) {
-      B& b = *bp;
+      // two bags: mostly strict alternation, sometimes a longer stretch on one of them
+      if (nb == 2 && rng.below(4) != 0)
+        w = 1 - w;
+      Side& S = side[w];
+      B& b    = *S.bp;
+      auto& m = S.m;
       if (rng.below(12) == 0)
         grow = (unsigned)rng.pick({40, 60, 70, 90});
       unsigned x = (unsigned)rng.below(100);
       if (x < 6) {
-        canPop = lastWasPush = false;
+        S.canPop = S.lastWasPush = false;
+        S.lastAddr               = nullptr;
+        S.run                    = 0;
+        unsigned preMax = 2 * std::min(cap ? cap : 4u, 4u) + 2;
         switch (rng.below(5)) {
         case 0:
           c.op("clear");
@@ -68,21 +94,21 @@ void bagT(Case& c, bool pops, unsigned cap, unsigned nops) {
         case 2: {
           c.op("move-construct");
           std::unique_ptr<B> np(new B(std::move(b)));
-          bp = std::move(np);
+          S.bp = std::move(np);
           break;
         }
         case 3: {
-          unsigned pre = (unsigned)rng.below(2 * std::min(cap, 4u) + 2);
+          unsigned pre = (unsigned)rng.below(preMax);
           c.op("move-assign", pre);
           std::unique_ptr<B> np(new B());
           for (unsigned i = 0; i < pre; ++i)
             np->push(T(c.nextVal()));
-          *np = std::move(b);
-          bp  = std::move(np);
+          *np  = std::move(b);
+          S.bp = std::move(np);
           break;
         }
         default: {
-          unsigned pre = (unsigned)rng.below(2 * std::min(cap, 4u) + 2);
+          unsigned pre = (unsigned)rng.below(preMax);
           c.op("swap", pre);
           std::unique_ptr<B> np(new B());
           std::vector<int> other;
@@ -94,38 +120,44 @@ void bagT(Case& c, bool pops, unsigned cap, unsigned nops) {
           np->swap(b);
           // np has the old contents of b, b has `other`
           checkBag(c, "swapped-in-traversal", b.begin(), b.end(), other);
-          bp = std::move(np);
+          S.bp = std::move(np);
           break;
         }
         }
-      } else if (!pops || !canPop || m.empty() || x < 6 + grow * 94 / 100) {
+      } else if (!pops || !S.canPop || m.empty() || x < 6 + grow * 94 / 100) {
         int v = c.nextVal();
         T* p;
         switch (rng.below(4)) {
         case 0:
-          c.op("push", v);
+          c.op("push", v, w);
           p = &b.push(T(v));
           break;
         case 1: {
           T tmp(v);
-          c.op("push_back-copy", v);
+          c.op("push_back-copy", v, w);
           p = &b.push_back(tmp);
           break;
         }
         case 2:
-          c.op("emplace", v);
+          c.op("emplace", v, w);
           p = &b.emplace(v);
           break;
         default:
-          c.op("emplace_back", v);
+          c.op("emplace_back", v, w);
           p = &b.emplace_back(v);
           break;
         }
         c.eq("result-value", val(*p), v);
         m.push_back(v);
-        canPop = lastWasPush = true;
+        S.canPop = S.lastWasPush = true;
+        // elements of one block are laid out consecutively
+        S.run      = (S.lastAddr && p == S.lastAddr + 1) ? S.run + 1 : 1;
+        S.lastAddr = p;
+        if (!c.bad && S.run > blockBound)
+          c.fail("more-elements-in-one-block-than-fit",
+                 J().kv("consecutive_elements", (uint64_t)S.run).kv("block_bytes", BS).kv("element_bytes", (unsigned)sizeof(T)));
       } else {
-        c.op("pop");
+        c.op("pop", NOARG, w);
         bool threw = false;
         try {
           b.pop();
@@ -135,56 +167,78 @@ void bagT(Case& c, bool pops, unsigned cap, unsigned nops) {
         if (threw) {
           // documented: only the number of consecutive pops is implementation dependent;
           // the first pop after a push must work
-          if (lastWasPush)
+          if (S.lastWasPush)
             c.fail("pop-directly-after-push-throws");
           else
             c.count("consecutive_pops_refused");
-          canPop = false;
+          S.canPop = false;
         } else {
           m.pop_back();
           c.count("pops");
+          if (S.run)
+            --S.run;
+          S.lastAddr = S.run ? S.lastAddr - 1 : nullptr;
         }
-        lastWasPush = false;
+        S.lastWasPush = false;
       }
-      checkBagAll(c, *bp, m, cap, tracked);
+      checkAll(w);
     }
     c.phase("destructor");
+    for (unsigned i = 0; i < nb; ++i)
+      side[i].bp.reset();
   }
   c.lifetimesOk(tracked ? 0 : -1);
 }
 
-// sizeof(T) == 8 and sizeof(header) == 32: a block of BS bytes holds BS/8 - 5 elements
+// 8-byte elements: a block of BS bytes holds BS/8 - 5 elements (sizeof(header) == 32)
 template <typename T>
-void bagBS(Case& c, unsigned cap, bool pops, unsigned nops) {
+void bag8(Case& c, unsigned cap, bool pops, bool pair, unsigned nops) {
   switch (cap) {
-  case 1: return bagT<T, 48>(c, pops, cap, nops);
-  case 2: return bagT<T, 56>(c, pops, cap, nops);
-  case 3: return bagT<T, 64>(c, pops, cap, nops);
-  case 4: return bagT<T, 72>(c, pops, cap, nops);
-  case 64: return bagT<T, 552>(c, pops, cap, nops);
-  default: return bagT<T, 0>(c, pops, cap, nops); // page-sized blocks
+  case 1: return bagT<T, 48>(c, pops, pair, nops);
+  case 2: return bagT<T, 56>(c, pops, pair, nops);
+  case 3: return bagT<T, 64>(c, pops, pair, nops);
+  case 4: return bagT<T, 72>(c, pops, pair, nops);
+  case 64: return bagT<T, 552>(c, pops, pair, nops);
+  default: return bagT<T, 0>(c, pops, pair, nops); // page-sized blocks
+  }
+}
+// other element sizes: explicit block sizes in bytes
+template <typename T>
+void bagBytes(Case& c, unsigned bs, bool pops, bool pair, unsigned nops) {
+  switch (bs) {
+  case 128: return bagT<T, 128>(c, pops, pair, nops);
+  case 256: return bagT<T, 256>(c, pops, pair, nops);
+  default: return bagT<T, 1024>(c, pops, pair, nops);
   }
 }
 
 } // namespace
 
 void run_InsertBag(Case& c) {
-  static_assert(sizeof(Tracked) == 8 && sizeof(Pod) == 8, "block capacities below assume 8-byte elements");
-  unsigned cap  = c.rng.pick({1u, 2u, 2u, 3u, 3u, 4u, 4u, 64u, 0u});
-  bool tracked  = c.rng.below(3) != 0;
+  static_assert(sizeof(Tracked) == 8 && sizeof(Pod) == 8, "block capacities above assume 8-byte elements");
+  static const char* EN[] = {"tracked", "pod", "tracked12", "pod12", "tracked20", "pod20", "tracked24", "pod24"};
+  unsigned elem = c.rng.below(2) ? (unsigned)c.rng.below(2) : 2 + (unsigned)c.rng.below(6);
+  unsigned cap  = c.rng.pick({1u, 2u, 2u, 3u, 3u, 4u, 4u, 64u, 0u}); // 8-byte elements: capacity of a block
+  unsigned bs   = c.rng.pick({128u, 128u, 256u, 1024u});             // other sizes: bytes of a block
   bool pops     = c.rng.below(4) != 0;
+  bool pair     = c.rng.below(5) < 2; // two bags filled alternately
   unsigned nops = c.pickOps();
-  std::string cfg = "cap" + std::to_string(cap) + (tracked ? "|tracked" : "|pod") + (pops ? "|pop" : "");
+  std::string blk = elem < 2 ? (cap ? "cap" + std::to_string(cap) : std::string("page")) : "bytes" + std::to_string(bs);
+  std::string cfg = blk + "|" + EN[elem] + (pops ? "|pop" : "") + (pair ? "|pair" : "");
   if (!c.begin("InsertBag", cfg,
-          J().kv("block_capacity", cap ? std::to_string(cap) : std::string("page"))
-              .kv("elem", tracked ? "tracked" : "pod").kv("pop_enabled", pops).kv("nops", nops)))
+               J().kv("block", blk).kv("elem", EN[elem]).kv("pop_enabled", pops).kv("two_bags_alternating", pair)
+                   .kv("nops", nops)))
     return;
-  unsigned capForStats = cap ? cap : 1u << 30;
-  (void)capForStats;
-  if (tracked)
-    bagBS<Tracked>(c, cap, pops, nops);
-  else
-    bagBS<Pod>(c, cap, pops, nops);
+  switch (elem) {
+  case 0: return bag8<Tracked>(c, cap, pops, pair, nops);
+  case 1: return bag8<Pod>(c, cap, pops, pair, nops);
+  case 2: return bagBytes<Tracked12>(c, bs, pops, pair, nops);
+  case 3: return bagBytes<Pod12>(c, bs, pops, pair, nops);
+  case 4: return bagBytes<Tracked20>(c, bs, pops, pair, nops);
+  case 5: return bagBytes<Pod20>(c, bs, pops, pair, nops);
+  case 6: return bagBytes<Tracked24>(c, bs, pops, pair, nops);
+  default: return bagBytes<Pod24>(c, bs, pops, pair, nops);
+  }
 }
 
 } // namespace c14
